@@ -9,6 +9,7 @@ import (
 	"reflect"
 	"strings"
 	"sync/atomic"
+	"time"
 
 	ledger "github.com/formancehq/ledger/internal"
 	"github.com/formancehq/ledger/internal/engine/command"
@@ -28,6 +29,8 @@ type c09Case struct {
 	Meta       metadata.Metadata
 	Ref        string
 	TS         ledger.Time
+	// TSRaw: the timestamp text as the client writes it (TS then holds the instant it denotes at the ledger's precision)
+	TSRaw string
 }
 
 func seedBalances(a, b *big.Int) *memstore.Store {
@@ -185,6 +188,14 @@ func c09() int {
 						c09One(rep, cb, "bulk-second", &evals, &accepted, &rejected, &samples)
 					}
 					c09One(rep, c, entry, &evals, &accepted, &rejected, &samples)
+					if variant == 1 && li%4 == 2 {
+						// the timestamp written with more decimals than the ledger keeps, and with an offset
+						for _, raw := range []string{"2023-05-06T07:08:09.1234567Z", "2023-05-06T09:08:09.123456789+02:00"} {
+							ct := &c09Case{Postings: lists[li], BalA: ba, BalB: bb, TSRaw: raw}
+							ct.TS, _ = ledger.ParseTime("2023-05-06T07:08:09.123457Z")
+							c09One(rep, ct, entry, &evals, &accepted, &rejected, &samples)
+						}
+					}
 					if variant == 1 && li%4 == 1 {
 						cc := &c09Case{Postings: lists[li], BalA: ba, BalB: bb}
 						c09One(rep, cc, entry+"-confirm", &evals, &accepted, &rejected, &samples)
@@ -216,6 +227,9 @@ func c09() int {
 		"posting_lists":       len(lists),
 		"rejected":            int(rejected),
 	}
+	// the engine on the real store, against the stand-in the enumeration above ran on (realstore.go)
+	rsH, rsS := realStoreConformance(rep, "")
+	cov["realstore_histories"], cov["realstore_steps"] = rsH, rsS
 	// the amount of a posting as a client writes it (apivars.go)
 	apiCases, apiAccepted, apiRefused := apiAmounts(rep)
 	cov["api_amount_cases"], cov["api_amount_accepted"], cov["api_amount_refused"] = apiCases, apiAccepted, apiRefused
@@ -279,7 +293,9 @@ func runCreate(eng *engineh.Engine, entry string, c *c09Case) (tx *ledger.Transa
 		if c.Ref != "" {
 			body["reference"] = c.Ref
 		}
-		if !c.TS.IsZero() {
+		if c.TSRaw != "" {
+			body["timestamp"] = c.TSRaw
+		} else if !c.TS.IsZero() {
 			body["timestamp"] = c.TS
 		}
 		raw, _ := json.Marshal(body)
@@ -373,6 +389,10 @@ func c09One(rep *evid.Reporter, c *c09Case, entry string, evals, accepted, rejec
 		}
 		if !c.TS.IsZero() && !got.Timestamp.Equal(c.TS) {
 			rep.Violation(key("timestamp-"+where), fmt.Sprintf("%s timestamp %v, requested %v", where, got.Timestamp, c.TS), replay)
+		}
+		// (the store keeps microseconds: a finer timestamp in the entry would differ from the row derived from it)
+		if got.Timestamp.Time.Nanosecond()%1000 != 0 {
+			rep.Violation(key("timestamp-precision-"+where), fmt.Sprintf("%s timestamp %s is finer than the ledger's precision (a microsecond)", where, got.Timestamp.Time.Format(time.RFC3339Nano)), replay)
 		}
 	}
 	check("persisted", pl.Transaction)
